@@ -302,6 +302,17 @@ func runC12(c *Ctx) {
 		c.Guarded(fn, "IncrementProposerPriority", inc, G("no updates, or UpdateWithChangeSet error == nil", IsNil(`^call:`+vsT+`\.UpdateWithChangeSet\(call:`+vsT+`\.Copy\(state\.NextValidators\), validatorUpdates\)$`), Cmp(`^call:len\(validatorUpdates\)$`, "<=", `^const:0$`)))
 	}
 	validatorSetRoles(c)
+	// a reloaded set names the proposer that was stored (not one re-derived from the priorities, which the elected
+	// proposer has already paid for), and a proposal is judged against the proposer of the set advanced to this round
+	for _, sp := range c14Codecs {
+		if sp.Name == "ValidatorSet" || sp.Name == "Validator" {
+			c.codecPair(sp)
+		}
+	}
+	if fn := c.Fn("consensus", "ConsensusState", "setProposal"); fn != nil {
+		c.Guarded(fn, "accept the proposal", StoreTo(`^&cs\.RoundState\.Proposal$`), G("signed by the proposer of the round's validator set",
+			True(`^call:types\.VerifySignature\(call:\(\*types\.ValidatorSet\)\.GetProposer\(cs\.RoundState\.Validators\)\.Address, `)))
+	}
 }
 
 // validatorSetRoles: which of the three validator sets of a state judges what. Applying a block shifts them by one
